@@ -2,6 +2,7 @@ package meta
 
 import (
 	"fmt"
+	"github.com/influxdata/influxdb/pkg/verifhook"
 	"io"
 	"time"
 
@@ -629,6 +630,9 @@ func (fsm *storeFSM) applyDeleteDataNodeCommand(cmd *internal.Command) interface
 
 func (fsm *storeFSM) Snapshot() (raft.FSMSnapshot, error) {
 	s := (*store)(fsm)
+	if verifhook.Enabled {
+		verifhook.Point("meta.fsm.snapshot", s.raftAddr)
+	}
 	s.mu.Lock()
 	defer s.mu.Unlock()
 
@@ -639,6 +643,9 @@ func (fsm *storeFSM) Snapshot() (raft.FSMSnapshot, error) {
 }
 
 func (fsm *storeFSM) Restore(r io.ReadCloser) error {
+	if verifhook.Enabled {
+		verifhook.Point("meta.fsm.restore", (*store)(fsm).raftAddr)
+	}
 	// Read all bytes.
 	b, err := io.ReadAll(r)
 	if err != nil {
